@@ -545,12 +545,24 @@ func cmdCoverage(args []string) {
 func cmdFuncs(args []string) {
 	fs := flag.NewFlagSet("funcs", flag.ExitOnError)
 	dir := fs.String("dir", "/repo", "repository")
+	sumRe := fs.String("summary", "", "print the syntactic frame (heap variables possibly written) of functions matching this regexp instead")
 	fs.Parse(args)
 	repoDir = *dir
 	g, err := loadGen(*dir)
 	if err != nil {
 		fmt.Println("LOAD-ERROR:", err)
 		os.Exit(2)
+	}
+	if *sumRe != "" {
+		re := regexp.MustCompile(*sumRe)
+		for _, fn := range g.allFuncs {
+			if !re.MatchString(g.fnKey(fn)) {
+				continue
+			}
+			s := g.summaries[fn]
+			fmt.Printf("%s: all=%v blocks=%v vars=%v\n", g.fnKey(fn), s.all, s.blocks, sortedKeys(s.vars))
+		}
+		return
 	}
 	for _, fn := range g.allFuncs {
 		root := fn
